@@ -171,6 +171,35 @@ func (x *Exec) entryEnv(s *State) *Env {
 			}
 		}
 	}
+	// named results that live in a cell (captured by deferred closures): their
+	// current value, whatever rvalue copies DebugRefs have named since
+	if res := fn.Signature.Results(); res != nil && len(fn.Blocks) > 0 {
+		for ri := 0; ri < res.Len(); ri++ {
+			rn := res.At(ri).Name()
+			if rn == "" || rn == "_" {
+				continue
+			}
+			for _, in := range fn.Blocks[0].Instrs {
+				al, ok := in.(*ssa.Alloc)
+				if !ok || al.Comment != rn {
+					continue
+				}
+				if pv, ok := top.regs[al].(*PtrVal); ok {
+					func() {
+						defer func() {
+							if r := recover(); r != nil {
+								if _, ok := r.(unsupported); !ok {
+									panic(r)
+								}
+							}
+						}()
+						env.vars[rn] = SVal{t: s.load(pv), gt: res.At(ri).Type()}
+					}()
+				}
+				break
+			}
+		}
+	}
 	i := 0
 	if c != nil {
 		if c.RecvName != "" && len(params) > 0 {
